@@ -211,8 +211,12 @@ class Executor:
                     return z3.Not(z3.And(z3.BoolVal(len(o.entries) == 0), self.lt_empty(st, o.tail)))
                 return z3.BoolVal(len(o.entries) > 0)
             return z3.BoolVal(True)
-        if isinstance(v, (FuncV, ClassV, ModV, BuiltinV, CoroV, Opaque)):
+        if isinstance(v, (FuncV, ClassV, ModV, BuiltinV, CoroV)):
             return z3.BoolVal(True)
+        if isinstance(v, Opaque):
+            if isinstance(v.data, dict) and v.data.get("not_none") or v.tag.startswith("inst:"):
+                return z3.BoolVal(True)  # an object (instances of the modelled library classes define no __bool__/__len__)
+            raise Unsupported(f"truthiness of the unknown value {v!r}")
         if isinstance(v, L.LT):
             return z3.Not(self.lt_empty(st, v))
         raise Unsupported(f"truthiness of {v!r}")
@@ -320,9 +324,38 @@ class Executor:
             return Opaque(f"global:{mod.name}.{name}")
         st2, v = rs[0]
         if isinstance(v, Ref):
-            # module-level containers (e.g. the modal mark mapping) are treated as immutable constants
+            o = st2.heap[v.oid]
+            if isinstance(o, Obj):
+                # an INSTANCE created at import time is shared by every call and may have been changed by an earlier
+                # one (its fields are ordinary mutable attributes): its state is unknown here
+                return Opaque(f"shared-module-object:{mod.name}.{name}")
+            if self._global_is_written(mod, name):
+                return Opaque(f"shared-module-container:{mod.name}.{name}")
+            # module-level containers that no function of the module writes to (e.g. the modal mark mapping) are
+            # constants
             return ("const", st2.heap, v)
         return v
+
+    def _global_is_written(self, mod: ModInfo, name: str) -> bool:
+        """does any function of the module store into / call a mutator on the module-level name (syntactic)?"""
+        from pyvc.frames import MUTATORS, _root_name
+        for n in ast.walk(mod.tree):
+            targets: List[ast.expr] = []
+            if isinstance(n, ast.Assign):
+                targets = list(n.targets)
+            elif isinstance(n, (ast.AugAssign, ast.AnnAssign)):
+                targets = [n.target]
+            elif isinstance(n, ast.Delete):
+                targets = list(n.targets)
+            for t in targets:
+                if isinstance(t, (ast.Attribute, ast.Subscript)) and _root_name(t) == name:
+                    return True
+            if isinstance(n, ast.Call) and isinstance(n.func, ast.Attribute) and n.func.attr in MUTATORS \
+                    and _root_name(n.func.value) == name:
+                return True
+            if isinstance(n, ast.Global) and name in n.names:
+                return True
+        return False
 
     def import_const(self, st: State, c):
         """bring a module-level constant container into the current heap"""
@@ -688,6 +721,14 @@ class Executor:
                 return self.attr_library[key](self, st, ref, attr)
             if attr == "transform" and "Transformer" in self.repo.mro(o.cls):
                 return [(st, BuiltinV("lark.Transformer.transform", ref))]
+        ci0 = self.repo.cls(o.cls) if o.cls else None
+        if o.tag is not None and ci0 is not None and not ci0.is_attrs and not attr.startswith("__"):
+            # an object handed in from outside (built by a parameter specification) of a plain class is in an ARBITRARY
+            # state: an attribute the class does not declare may be absent - or present with any value (e.g. a cache a
+            # previous call left behind).  Both outcomes; what is done with the unknown value is usually unsupported.
+            absent = (st.fork(), default) if default is not None else \
+                self.raise_(st.fork(), "AttributeError", sv_str(f"'{o.cls}' object has no attribute '{attr}'"))
+            return [absent, (st, Opaque(f"unknown-state:{o.cls}.{attr}"))]
         if default is not None:
             return [(st, default)]
         return [self.raise_(st, "AttributeError", sv_str(f"'{o.cls}' object has no attribute '{attr}'"))]
@@ -797,6 +838,13 @@ class Executor:
             return z3.BoolVal(False)
         if isinstance(a, ClassV) and isinstance(b, ClassV):
             return z3.BoolVal(a.name == b.name)
+        if a is not b and (isinstance(a, Opaque) or isinstance(b, Opaque)):
+            # nothing is known about an opaque value: it may well be the other operand
+            op, other = (a, b) if isinstance(a, Opaque) else (b, a)
+            if isinstance(op.data, dict) and op.data.get("not_none") and isinstance(other, SV) \
+                    and z3.is_true(z3.simplify(Sc.is_none(other.t))):
+                return z3.BoolVal(False)  # the model that created the value states that it is an object, not None
+            raise Unsupported(f"'is' between {a!r} and {b!r}")
         return z3.BoolVal(a is b)
 
     def note_assumption(self, text: str) -> None:
